@@ -1610,6 +1610,223 @@ static void run_far() {
     R->bound("path.oas.far", fmt("OASIS only (GDSII's 32-bit coordinates cannot hold them): unit 1e-6, precision 1e-12; simple FlexPath (offset 0; two elements +1.5/-1.5) and simple RobustPath x %zu shapes (6 short shapes started at (+-2500, +-3100), 3 single steps of 3000 user units from (1,2)): centre line within 1.5 database units, width/end, region for the short shapes", shapes.size()), ok, (int64_t)ms.size());
 }
 
+// ----------------------------------------------------------------------- smooth continuations after every section kind
+// The spine of a smooth continuation (quadratic_smooth, cubic_smooth, commands t/T/s/S, turn / 'a') starts with the
+// reflection of the previous section's last control point about the current point.  Histories: start (init (10,5) +
+// segment rel (2,1) | init (0,0) + segment abs (7,-3)) -> predecessor (every section kind that defines a last control
+// point, relative and absolute, direct call and command letter) -> continuation (relative and absolute, direct and
+// command).  Oracle: the harness keeps (current point P, last control L) by the documented rules, evaluates the exact
+// Bezier / arc of every section itself and demands that every appended spine point lies on it (1e-4), that the exact
+// curve stays within 2.5 tolerance of the spine polyline, that the section ends at the requested point, and one
+// (half width, offset) entry per spine point.
+struct SmoothSec { const char* name; int kind; bool rel; bool cmd; };  // kind: see smooth_apply
+enum { SK_SEG, SK_SEGARR, SK_H, SK_V, SK_QUAD, SK_CUBIC, SK_CUBICS, SK_QUADS, SK_QUADSARR, SK_BEZIER, SK_TURNP, SK_TURNN };
+struct ExactPiece { int deg; V c[4]; V cc; double r, a0, a1; };  // deg 1..3 Bezier, 0 = arc
+static V bez(const ExactPiece& e, double t) {
+    double u = 1 - t;
+    if (e.deg == 0) { double a = e.a0 + (e.a1 - e.a0) * t; return e.cc + V{cos(a), sin(a)} * e.r; }
+    if (e.deg == 1) return e.c[0] * u + e.c[1] * t;
+    if (e.deg == 2) return e.c[0] * (u * u) + e.c[1] * (2 * u * t) + e.c[2] * (t * t);
+    return e.c[0] * (u * u * u) + e.c[1] * (3 * u * u * t) + e.c[2] * (3 * u * t * t) + e.c[3] * (t * t * t);
+}
+// applies the section to the real path and to the model (P, L); returns the exact pieces
+static bool smooth_apply(FlexPath& fp, const SmoothSec& sc, V& P, V& L, std::vector<ExactPiece>& ex, bool& defines_ctrl) {
+    const bool rel = sc.rel;
+    const V ref = rel ? P : V{0, 0};
+    // argument values are given relative to P and converted for the absolute variants
+    auto arg = [&](double x, double y) { return rel ? V{x, y} : V{P.x + x, P.y + y}; };
+    auto absv = [&](V a) { return a + ref; };
+    auto G2 = [](V v) { return Vec2{v.x, v.y}; };
+    std::vector<V> a;
+    std::vector<CurveInstruction> ci;
+    auto cmd = [&](char c) { CurveInstruction x; memset(&x, 0, sizeof x); x.command = c; ci.push_back(x); };
+    auto num = [&](double v) { CurveInstruction x; memset(&x, 0, sizeof x); x.number = v; ci.push_back(x); };
+    auto numv = [&](V v) { num(v.x); num(v.y); };
+    Vec2 buf[4];
+    Array<Vec2> pa = {};
+    pa.items = buf;
+    defines_ctrl = true;
+    switch (sc.kind) {
+        case SK_SEG: {
+            V e = arg(3, 1);
+            if (sc.cmd) { cmd(rel ? 'l' : 'L'); numv(e); } else fp.segment(G2(e), NULL, NULL, rel);
+            ex.push_back({1, {P, absv(e)}});
+            L = P; P = absv(e);
+        } break;
+        case SK_SEGARR: {
+            V e0 = arg(1, 2), e1 = arg(4, 1);
+            buf[0] = G2(e0); buf[1] = G2(e1); pa.count = 2;
+            fp.segment(pa, NULL, NULL, rel);
+            ex.push_back({1, {P, absv(e0)}});
+            ex.push_back({1, {absv(e0), absv(e1)}});
+            L = absv(e0); P = absv(e1);
+        } break;
+        case SK_H: {
+            double x = rel ? 2.0 : P.x + 2.0;
+            if (sc.cmd) { cmd(rel ? 'h' : 'H'); num(x); } else fp.horizontal(x, NULL, NULL, rel);
+            V e{P.x + 2.0, P.y};
+            ex.push_back({1, {P, e}});
+            L = P; P = e;
+        } break;
+        case SK_V: {
+            double y = rel ? 1.5 : P.y + 1.5;
+            if (sc.cmd) { cmd(rel ? 'v' : 'V'); num(y); } else fp.vertical(y, NULL, NULL, rel);
+            V e{P.x, P.y + 1.5};
+            ex.push_back({1, {P, e}});
+            L = P; P = e;
+        } break;
+        case SK_QUAD: {
+            V c = arg(1, 2), e = arg(3, 1);
+            if (sc.cmd) { cmd(rel ? 'q' : 'Q'); numv(c); numv(e); }
+            else { buf[0] = G2(c); buf[1] = G2(e); pa.count = 2; fp.quadratic(pa, NULL, NULL, rel); }
+            ex.push_back({2, {P, absv(c), absv(e)}});
+            L = absv(c); P = absv(e);
+        } break;
+        case SK_CUBIC: {
+            V c1 = arg(1, 1.5), c2 = arg(2.5, 2), e = arg(4, 0.5);
+            if (sc.cmd) { cmd(rel ? 'c' : 'C'); numv(c1); numv(c2); numv(e); }
+            else { buf[0] = G2(c1); buf[1] = G2(c2); buf[2] = G2(e); pa.count = 3; fp.cubic(pa, NULL, NULL, rel); }
+            ex.push_back({3, {P, absv(c1), absv(c2), absv(e)}});
+            L = absv(c2); P = absv(e);
+        } break;
+        case SK_CUBICS: {
+            V c2 = arg(2, 1.5), e = arg(3.5, -0.5);
+            if (sc.cmd) { cmd(rel ? 's' : 'S'); numv(c2); numv(e); }
+            else { buf[0] = G2(c2); buf[1] = G2(e); pa.count = 2; fp.cubic_smooth(pa, NULL, NULL, rel); }
+            ex.push_back({3, {P, P * 2.0 - L, absv(c2), absv(e)}});
+            L = absv(c2); P = absv(e);
+        } break;
+        case SK_QUADS: {
+            V e = arg(2.5, 1);
+            if (sc.cmd) { cmd(rel ? 't' : 'T'); numv(e); } else fp.quadratic_smooth(G2(e), NULL, NULL, rel);
+            V c = P * 2.0 - L;
+            ex.push_back({2, {P, c, absv(e)}});
+            L = c; P = absv(e);
+        } break;
+        case SK_QUADSARR: {
+            V e0 = arg(2, 1), e1 = arg(4, -1);
+            buf[0] = G2(e0); buf[1] = G2(e1); pa.count = 2;
+            fp.quadratic_smooth(pa, NULL, NULL, rel);
+            V c = P * 2.0 - L;
+            ex.push_back({2, {P, c, absv(e0)}});
+            V c1 = absv(e0) * 2.0 - c;
+            ex.push_back({2, {absv(e0), c1, absv(e1)}});
+            L = c1; P = absv(e1);
+        } break;
+        case SK_BEZIER: {
+            V c1 = arg(1, 1), c2 = arg(2, -1), e = arg(3, 0.5);
+            buf[0] = G2(c1); buf[1] = G2(c2); buf[2] = G2(e); pa.count = 3;
+            fp.bezier(pa, NULL, NULL, rel);
+            ex.push_back({3, {P, absv(c1), absv(c2), absv(e)}});
+            L = absv(c2); P = absv(e);
+        } break;
+        case SK_TURNP:
+        case SK_TURNN: {
+            double ang = sc.kind == SK_TURNP ? 1.2 : -0.9, r = 1.5;
+            if (sc.cmd) { cmd('a'); num(r); num(ang); } else fp.turn(r, ang, NULL, NULL);
+            V d = P - L;
+            double ia = atan2(d.y, d.x) + (ang < 0 ? 0.5 * M_PI : -0.5 * M_PI);
+            ExactPiece e{};
+            e.deg = 0; e.r = r; e.a0 = ia; e.a1 = ia + ang;
+            e.cc = P - V{cos(ia), sin(ia)} * r;
+            ex.push_back(e);
+            P = e.cc + V{cos(e.a1), sin(e.a1)} * r;
+            defines_ctrl = false;  // the control point after an arc follows the last chord of the polyline, not a closed form
+        } break;
+    }
+    if (sc.cmd) {
+        uint64_t rr = fp.commands(ci.data(), ci.size());
+        if (rr != ci.size()) return false;
+    }
+    return true;
+}
+static void run_smooth() {
+    if (getenv("C07_FAM") && std::string("spine.smooth").find(getenv("C07_FAM")) == std::string::npos) return;  // development aid
+    const std::string sub = "spine.smooth";
+    std::vector<SmoothSec> preds, conts;
+    struct KD { const char* n; int k; bool has_cmd; };
+    for (KD kd : {KD{"segment(p)", SK_SEG, true}, KD{"segment([p,p])", SK_SEGARR, false}, KD{"horizontal", SK_H, true}, KD{"vertical", SK_V, true}, KD{"quadratic", SK_QUAD, true}, KD{"cubic", SK_CUBIC, true},
+                  KD{"cubic_smooth", SK_CUBICS, true}, KD{"quadratic_smooth(p)", SK_QUADS, true}, KD{"quadratic_smooth([p,p])", SK_QUADSARR, false}, KD{"bezier", SK_BEZIER, false}})
+        for (int rel = 0; rel < 2; rel++) {
+            preds.push_back({kd.n, kd.k, rel == 1, false});
+            if (kd.has_cmd) preds.push_back({kd.n, kd.k, rel == 1, true});
+        }
+    for (KD kd : {KD{"quadratic_smooth(p)", SK_QUADS, true}, KD{"quadratic_smooth([p,p])", SK_QUADSARR, false}, KD{"cubic_smooth", SK_CUBICS, true}})
+        for (int rel = 0; rel < 2; rel++) {
+            conts.push_back({kd.n, kd.k, rel == 1, false});
+            if (kd.has_cmd) conts.push_back({kd.n, kd.k, rel == 1, true});
+        }
+    for (int k : {SK_TURNP, SK_TURNN}) { conts.push_back({k == SK_TURNP ? "turn(1.5,+1.2)" : "turn(1.5,-0.9)", k, false, false}); conts.push_back({k == SK_TURNP ? "turn(1.5,+1.2)" : "turn(1.5,-0.9)", k, false, true}); }
+    int64_t ncase = 0;
+    bool complete = true;
+    for (int start = 0; start < 2 && complete; start++)
+        for (size_t pi = 0; pi < preds.size() && complete; pi++)
+            for (size_t qi = 0; qi < conts.size(); qi++) {
+                if (R->out_of_time()) { complete = false; break; }
+                const SmoothSec& pr = preds[pi];
+                const SmoothSec& co = conts[qi];
+                FlexPath fp;
+                memset(&fp, 0, sizeof fp);
+                double w[1] = {0.4}, of[1] = {0.0};
+                Tag tg[1] = {make_tag(1, 0)};
+                V P = start == 0 ? V{10, 5} : V{0, 0}, L{0, 0};
+                fp.init(Vec2{P.x, P.y}, 1, w, of, TOL, tg);
+                if (start == 0) { fp.segment(Vec2{2, 1}, NULL, NULL, true); L = P; P = V{12, 6}; }
+                else { fp.segment(Vec2{7, -3}, NULL, NULL, false); L = P; P = V{7, -3}; }
+                auto secname = [&](const SmoothSec& x) { return fmt("%s %s%s", x.name, x.kind >= SK_TURNP ? "" : (x.rel ? "relative" : "absolute"), x.cmd ? " [commands]" : ""); };
+                std::string hist = fmt("%s -> %s -> %s", start == 0 ? "init(10,5)+segment rel (2,1)" : "init(0,0)+segment abs (7,-3)", secname(pr).c_str(), secname(co).c_str());
+                JFields tags = {{"start", jint(start)}, {"predecessor", jstr(pr.name)}, {"predecessor_relative", jbool(pr.rel)}, {"predecessor_via_commands", jbool(pr.cmd)},
+                                {"continuation", jstr(co.name)}, {"continuation_relative", jbool(co.rel)}, {"continuation_via_commands", jbool(co.cmd)}};
+                std::string cj = jobj({{"history", jstr(hist)}});
+                std::string replay = fmt("sub=spine.smooth start=%d pred=%zu cont=%zu", start, pi, qi);
+                const SmoothSec* secs[2] = {&pr, &co};
+                bool stop = false;
+                for (int si = 0; si < 2 && !stop; si++) {
+                    uint64_t n0 = fp.spine.point_array.count;
+                    std::vector<ExactPiece> ex;
+                    bool dc = true;
+                    V P0 = P;
+                    bool ok = smooth_apply(fp, *secs[si], P, L, ex, dc);
+                    const char* which = si == 0 ? "predecessor" : "continuation";
+                    std::string cls = fmt("%s:%s%s->%s%s", which, pr.name, pr.rel ? " rel" : " abs", co.name, co.rel ? " rel" : " abs");
+                    if (!ok) { R->violation(sub, "commands-return:" + cls, tags, cj, "commands() did not process the whole list", replay); stop = true; break; }
+                    uint64_t n1 = fp.spine.point_array.count;
+                    if (fp.elements[0].half_width_and_offset.count != n1) { R->violation(sub, "count-mismatch:" + cls, tags, cj, fmt("%llu spine points, %llu entries", (unsigned long long)n1, (unsigned long long)fp.elements[0].half_width_and_offset.count), replay); stop = true; break; }
+                    // exact curve as a dense polyline
+                    std::vector<V> dense;
+                    for (auto& e : ex) for (int t = 0; t <= 2000; t++) dense.push_back(bez(e, t / 2000.0));
+                    double worst_pt = 0, worst_cv = 0;
+                    bool finite = true;
+                    for (uint64_t i = n0; i < n1; i++) {
+                        V q{fp.spine.point_array[i].x, fp.spine.point_array[i].y};
+                        if (!std::isfinite(q.x) || !std::isfinite(q.y)) { finite = false; break; }
+                        double d = 1e300;
+                        for (size_t t = 0; t + 1 < dense.size(); t++) d = std::min(d, c07::dist_seg(dense[t], dense[t + 1], q));
+                        worst_pt = std::max(worst_pt, d);
+                    }
+                    for (size_t t = 0; finite && t < dense.size(); t += 25) {
+                        double d = 1e300;
+                        for (uint64_t i = n0 - 1; i + 1 < n1; i++) d = std::min(d, c07::dist_seg(V{fp.spine.point_array[i].x, fp.spine.point_array[i].y}, V{fp.spine.point_array[i + 1].x, fp.spine.point_array[i + 1].y}, dense[t]));
+                        worst_cv = std::max(worst_cv, d);
+                    }
+                    V endp{fp.spine.point_array[n1 - 1].x, fp.spine.point_array[n1 - 1].y};
+                    R->count("cases");
+                    R->count("spine_smooth_sections_checked");
+                    if (si == 1) { R->count("nontrivial"); if (pr.rel && (pr.kind == SK_QUAD || pr.kind == SK_CUBIC || pr.kind == SK_CUBICS || pr.kind == SK_BEZIER)) R->count("spine_smooth_after_relative_bezier_section"); }
+                    if (!finite || n1 <= n0 || worst_pt > 1e-4 || worst_cv > 2.5 * TOL || c07::norm(endp - P) > 1e-9) {
+                        R->violation(sub, "off-curve:" + cls, tags, cj,
+                                     fmt("%s section from (%.6g,%.6g): appended spine points up to %.4g away from the exact curve (allowed 1e-4: the exact curve is a 2000-chord polyline), exact curve up to %.4g away from the spine polyline (allowed %.3g), section ends at (%.9g,%.9g), requested (%.9g,%.9g)%s",
+                                         which, P0.x, P0.y, worst_pt, worst_cv, 2.5 * TOL, endp.x, endp.y, P.x, P.y, finite ? "" : "; non-finite spine point"), replay);
+                        stop = true;
+                    }
+                }
+                fp.clear();
+                ncase++;
+            }
+    R->sample(sub, jobj({{"history", jstr("init(10,5)+segment rel (2,1) -> quadratic relative -> quadratic_smooth(p) absolute")}}));
+    R->bound(sub, fmt("2 starts away from the origin x %zu predecessor sections (segment, segment array, horizontal, vertical, quadratic, cubic, cubic_smooth, quadratic_smooth point/array, bezier; relative and absolute; direct and command letters l h v q c s t) x %zu continuations (quadratic_smooth point/array, cubic_smooth relative/absolute direct and t/T/s/S, turn +1.2/-0.9 direct and 'a')", preds.size(), conts.size()), complete, ncase);
+}
+
 // ----------------------------------------------------------------------- long simple paths (multi-record XY lists)
 // GDSII XY records hold at most 8190 points, so FlexPath::to_gds splits the centre line of a long simple path
 // over several records.  Members: zig-zag spine (0,0),(4,4),(8,0),(12,4),... with n points built by init +
@@ -1806,6 +2023,8 @@ int main(int argc, char** argv) {
             ss.pts = parse_pts(run.rarg("pts"));
             ss.kind = run.rarg("kind");
             run_manh_member(ss, atoi(run.rarg("oc").c_str()), atoi(run.rarg("end").c_str()), 0.25, true);
+        } else if (sub == "spine.smooth") {
+            run_smooth();  // the whole sub-search is a fraction of a second; violations are printed again
         } else if (sub == "pathfar") {
             run_far_member(atoi(run.rarg("shape").c_str()), atoi(run.rarg("origin").c_str()), atoi(run.rarg("cls").c_str()), atoi(run.rarg("oc").c_str()), true);
         } else if (sub == "pathlong") {
@@ -1841,6 +2060,7 @@ int main(int argc, char** argv) {
         }
     }
     if (only && !strcmp(only, "book")) return run.finish();
+    run_smooth();
 
     // ---- (b) + (c), smallest first
     std::vector<std::vector<V>> s2, s3a, s3b, s3, s4a, s4b;
